@@ -1,4 +1,5 @@
 import BufProofs.Lemmas.ManagedSweepLemmas
+import BufProofs.Lemmas.ManagedYamlLemmas
 /-
   C18 — managed mode rewrites only what it governs.
 
@@ -544,6 +545,132 @@ theorem sweep_old_counterexample :
     sweepRemoved true [[8, 1]] [⟨[8], 0⟩, ⟨[8, 1], 1⟩, ⟨[4, 0, 2, 0, 8], 2⟩] = some [1, 0] := by
   decide
 
+
+/-! ### the configuration keys of buf.gen.yaml v1 (config-key family)
+
+  `configOfV1 env x` = the rules `bufconfig` makes from the `managed:` section `x` of a v1
+  document (`BufModel.ConfigGen.readManagedV1`, tied to the real reader by the `cfgv1` protocol
+  lines and by C16) in the rule records of this model.  `V1Section.documented` is the
+  SPECIFICATION: the governed option the documentation of the key names.  The theorems say that
+  the translated rules govern exactly that option — the statement the seeded regression
+  (`csharp_namespace.except` → rules for csharp_namespace_prefix) falsifies. -/
+
+open BufModel.ManagedYaml BufProofs.ManagedYamlLemmas
+
+/-- (finite table, by cases) for each of the six `{default, except, override}` keys: the option
+    its `except` rules name is the one whose disabling exempts the DOCUMENTED option, and the
+    option its `default` / `override` rules name acts on the documented option (is it, or its
+    prefix companion). -/
+theorem v1_key_table_governs_documented (s : V1Section) :
+    foOf s.exceptOption = s.documented.fileOpt ∧ concerns (foOf s.overrideOption) s.documented = true := by
+  cases s <;> decide
+
+/-- … and the three bool keys name the option they are documented to set. -/
+theorem v1_bool_key_table (k : V1BoolKey) : foOf k.option = (Gov.bool k.documented).fileOpt := by
+  cases k <;> rfl
+
+/-- The disable rules of a v1 document are exactly: one per module listed under `except` of a
+    section, unscoped by path and field, naming the documented option of that section.  Nothing
+    else is ever exempted, and nothing listed is missing. -/
+theorem v1_disable_rules_exact {env : BufModel.ConfigGen.Env} {x : BufModel.ConfigGen.ExtManagedV1} {cfg : Config}
+    (h : configOfV1 env x = some cfg) (d : Disable) :
+    d ∈ cfg.disables ↔
+      ∃ s : V1Section, ∃ n ∈ (s.get x).except, d = ⟨[], n, [], s.documented.fileOpt, false⟩ := by
+  obtain ⟨m, hm, rfl⟩ := configOfV1_some h
+  have hall : ∀ s : V1Section, s ∈ V1Section.all := by intro s; cases s <;> simp [V1Section.all]
+  have hrule : ∀ (s : V1Section) (n : List Char),
+      disableOf (exceptRule s.exceptOption n) = ⟨[], n, [], s.documented.fileOpt, false⟩ := by
+    intro s n
+    have := (v1_key_table_governs_documented s).1
+    simp only [disableOf, exceptRule, optFoOf, this, Option.isSome_none]
+  simp only [toConfig, List.mem_map, readManagedV1_disables hm, List.mem_flatMap]
+  constructor
+  · rintro ⟨d0, ⟨s, _, n, hn, rfl⟩, rfl⟩
+    exact ⟨s, n, hn, hrule s n⟩
+  · rintro ⟨s, n, hn, rfl⟩
+    exact ⟨exceptRule s.exceptOption n, ⟨s, hall s, n, hn, rfl⟩, hrule s n⟩
+
+/-- A module listed under `<key>.except` is exempted for the option the key is documented to
+    govern: every file carrying that module name has that option disabled … -/
+theorem v1_except_exempts_documented_option {env : BufModel.ConfigGen.Env} {x : BufModel.ConfigGen.ExtManagedV1}
+    {cfg : Config} (h : configOfV1 env x = some cfg) (s : V1Section) (n : List Char)
+    (hn : n ∈ (s.get x).except) (f : File) (hf : f.module = some n) :
+    isFileOptionDisabled cfg f s.documented.fileOpt = true := by
+  rw [isFileOptionDisabled_iff]
+  refine ⟨⟨[], n, [], s.documented.fileOpt, false⟩, (v1_disable_rules_exact h _).mpr ⟨s, n, hn, rfl⟩, Or.inr rfl, rfl, ?_⟩
+  simp [fileMatch, hf]
+
+/-- … hence `Modify` leaves that option of such a file exactly as it was (value and presence),
+    whatever else the document says (defaults, overrides, per-file overrides), in both preserve
+    modes. -/
+theorem v1_excepted_module_untouched {env : BufModel.ConfigGen.Env} {x : BufModel.ConfigGen.ExtManagedV1}
+    {cfg : Config} (h : configOfV1 env x = some cfg) (s : V1Section) (n : List Char)
+    (hn : n ∈ (s.get x).except) {p : Bool} {img : List File} {f f' : File} (hf : f.module = some n)
+    (hout : Out p cfg img f f') :
+    getOpt s.documented.tag f'.opts = getOpt s.documented.tag f.opts :=
+  disabled_untouched_file_option hout s.documented (v1_except_exempts_documented_option h s n hn f hf)
+
+/-- Every entry `module ↦ value` of a section's `override` map yields an override rule scoped to
+    exactly that module (no path, no field) that acts on the documented option. -/
+theorem v1_module_override_rule {env : BufModel.ConfigGen.Env} {x : BufModel.ConfigGen.ExtManagedV1}
+    {cfg : Config} (h : configOfV1 env x = some cfg) (s : V1Section) (kv : List Char × List Char)
+    (hkv : kv ∈ (s.get x).override) :
+    ∃ o ∈ cfg.overrides, o.path = [] ∧ o.module = kv.1 ∧ o.fieldName = [] ∧ o.jstype = false ∧
+      o.fileOption = foOf s.overrideOption ∧ concerns o.fileOption s.documented = true := by
+  obtain ⟨m, hm, rfl⟩ := configOfV1_some h
+  obtain ⟨o, ho, hp, hmod, hfld, hfo, hfdo, _⟩ := readManagedV1_module_override hm s kv hkv
+  refine ⟨overrideOf o, List.mem_map.mpr ⟨o, ho, rfl⟩, ?_⟩
+  have hfo' : (overrideOf o).fileOption = foOf s.overrideOption := by
+    unfold overrideOf; cases o.value <;> simp [optFoOf, hfo]
+  refine ⟨?_, ?_, ?_, ?_, hfo', ?_⟩
+  · unfold overrideOf; cases o.value <;> simp [hp]
+  · unfold overrideOf; cases o.value <;> simp [hmod]
+  · unfold overrideOf; cases o.value <;> simp [hfld]
+  · unfold overrideOf; cases o.value <;> simp [hfdo]
+  · rw [hfo']; exact (v1_key_table_governs_documented s).2
+
+/-- Conversely, an override rule of a v1 document that names a module comes from an entry of
+    the `override` map of one of the six sections, is scoped to that entry's module, and acts on
+    that section's documented option: a per-module value never turns into a rule for all
+    modules or for another option. -/
+theorem v1_module_scoped_rule_origin {env : BufModel.ConfigGen.Env} {x : BufModel.ConfigGen.ExtManagedV1}
+    {cfg : Config} (h : configOfV1 env x = some cfg) (o : Override) (ho : o ∈ cfg.overrides)
+    (hmod : o.module ≠ []) :
+    ∃ s : V1Section, ∃ kv ∈ (s.get x).override, o.module = kv.1 ∧ o.path = [] ∧
+      concerns o.fileOption s.documented = true := by
+  obtain ⟨m, hm, rfl⟩ := configOfV1_some h
+  obtain ⟨o0, ho0, rfl⟩ := List.mem_map.mp ho
+  have hmod0 : o0.module ≠ [] := by
+    intro e; apply hmod; unfold overrideOf; cases o0.value <;> simp [e]
+  obtain ⟨s, kv, hkv, hp, hm', _, hfo, _, _⟩ := readManagedV1_scoped_origin hm o0 ho0 hmod0
+  refine ⟨s, kv, hkv, ?_, ?_, ?_⟩
+  · unfold overrideOf; cases o0.value <;> simp [hm']
+  · unfold overrideOf; cases o0.value <;> simp [hp]
+  · have : (overrideOf o0).fileOption = foOf s.overrideOption := by
+      unfold overrideOf; cases o0.value <;> simp [optFoOf, hfo]
+    rw [this]; exact (v1_key_table_governs_documented s).2
+
+/-! ### the mark-sweeper's path key (number family)
+
+  The model compares a location path with the marks as `List Nat` (`mk.contains loc.path` in
+  `sweepLoop`): exact, whole-path, unbounded.  The Go code compares map keys
+  (`getPathKey`: four little-endian bytes per int32 element); that is the same relation because
+  the key is injective on paths whose elements fit 32 bits: -/
+
+theorem path_key_injective (p q : List Nat) (hp : ∀ e ∈ p, e < 4294967296) (hq : ∀ e ∈ q, e < 4294967296)
+    (h : pathKey p = pathKey q) : p = q :=
+  pathKey_injective p q hp hq h
+
+/-- The two-byte key of the seeded regression identifies a custom option 65536+N with the
+    built-in option N (file option 65537 with java_package, field option 65542 with jstype);
+    with exact comparison the sweeper removes the rewritten java_package location `[8,1]` and
+    its parent only — the location of custom option `[8,65537]` (index 4) and its parent stay. -/
+theorem path_key16_counterexample :
+    pathKey16 [8, 65537] = pathKey16 [8, 1] ∧ pathKey16 [4, 0, 2, 0, 8, 65542] = pathKey16 [4, 0, 2, 0, 8, 6] ∧
+    pathKey [8, 65537] ≠ pathKey [8, 1] ∧
+    sweepRemoved true [[8, 1]] [⟨[], 0⟩, ⟨[8], 1⟩, ⟨[8, 1], 2⟩, ⟨[8], 3⟩, ⟨[8, 65537], 4⟩] = some [2, 1] := by
+  decide
+
 /-! ### idempotence -/
 
 /-- Applying managed mode to its own output changes nothing and reports no error (also when
@@ -680,5 +807,40 @@ example :
 
 example : RootsFirst [⟨[4, 0, 2, 0], 0⟩, ⟨[4, 0, 2, 0, 8], 1⟩, ⟨[4, 0, 2, 0, 8, 50000, 1], 2⟩, ⟨[4, 0, 2, 0, 8, 6], 3⟩] :=
   rootsFirst_of_check (by decide)
+
+/-! non-vacuity of the config-key theorems: a v1 document with `csharp_namespace.except`,
+    `java_package_prefix {default, override}` and `cc_enable_arenas`; the excepted module's file
+    has csharp_namespace (37) disabled and nothing else. -/
+
+def exEnv : BufModel.ConfigGen.Env :=
+  { remoteHost := fun _ => none, validFullName := fun _ => true, validPath := fun _ => true, lookPath := fun _ => false }
+
+def exV1 : BufModel.ConfigGen.ExtManagedV1 :=
+  { enabled := true, ccEnableArenas := some false, javaMultipleFiles := none, javaStringCheckUtf8 := none,
+    javaPackagePrefix := ⟨"net".toList, [], [("buf.build/acme/pet".toList, "org".toList)]⟩,
+    csharpNamespace := ⟨[], ["buf.build/acme/weather".toList], []⟩,
+    optimizeFor := ⟨[], [], []⟩, goPackagePrefix := ⟨[], [], []⟩, objcClassPrefix := ⟨[], [], []⟩,
+    rubyPackage := ⟨[], [], []⟩, override := [] }
+
+example : configOfV1 exEnv exV1 = some
+    { enabled := true,
+      disables := [⟨[], "buf.build/acme/weather".toList, [], .csharpNamespace, false⟩],
+      overrides := [⟨[], [], [], .ccEnableArenas, false, [], false, 0⟩,
+                    ⟨[], [], [], .javaPackagePrefix, false, "net".toList, false, 0⟩,
+                    ⟨[], "buf.build/acme/pet".toList, [], .javaPackagePrefix, false, "org".toList, false, 0⟩] } := by
+  decide
+
+example : "buf.build/acme/weather".toList ∈ (V1Section.csharpNamespace.get exV1).except ∧
+    exFile.module = some "buf.build/acme/weather".toList ∧ V1Section.csharpNamespace.documented.tag = 37 := by decide
+
+example : ∀ cfg, configOfV1 exEnv exV1 = some cfg →
+    isFileOptionDisabled cfg exFile StrOpt.csharpNamespace.valueOpt = true ∧
+    isFileOptionDisabled cfg exFile StrOpt.javaPackage.valueOpt = false := by
+  intro cfg h
+  refine ⟨v1_except_exempts_documented_option h .csharpNamespace "buf.build/acme/weather".toList (by decide) exFile (by decide), ?_⟩
+  have hc : configOfV1 exEnv exV1 = some (toConfig ((BufModel.ConfigGen.readManagedV1 exEnv exV1).getD default)) := by decide
+  rw [hc] at h; injection h with h; subst h; decide
+
+example : ("buf.build/acme/pet".toList, "org".toList) ∈ (V1Section.javaPackagePrefix.get exV1).override := by decide
 
 end BufProofs.C18
